@@ -5,7 +5,7 @@ from harness.rvals import canon_wire
 
 class C18(RecorderProp):
     ID = 'C18'
-    RULE = ('random operations terminating by return / ordinary exception / interrupt (KeyboardInterrupt, SystemExit, '
+    RULE = ('random operations terminating by return (8 % of them returning a value that looks like the recorder\'s rendering of a failure: `{error_type, error_repr}`) / ordinary exception / interrupt (KeyboardInterrupt, SystemExit, '
             'GeneratorExit) at every step incl. inside input and output bodies, after 0-3 captured outputs, on instance and '
             'class-level operations, with extractors that succeed, raise, return None, an int or a half-valid iterable, scripted '
             'clock, in local time zones UTC / JST-9 / EST5EDT / IST-5:30; saved metadata (class, exception flag, duration, incomplete flag, user keys, '
@@ -28,6 +28,11 @@ class C18(RecorderProp):
             if case['classes'][run['cls']]['hasExtractor'] and 'extractor' not in run:
                 run['extractor'] = rng.choice([{'ok': [['user', {'s': 'u'}], ['n', {'i': '3'}]]}, {'ok': []}, 'raise', 'junk5',
                                                'junkpairs', 'junknone'])
+        for run in case['runs']:
+            if run['run'] == 'op' and run['script'] and run['script'][-1].get('op') == 'ret' and rng.random() < 0.08:
+                # a RETURNED value that looks like the recorder's own rendering of a failure (result-or-error style): it is a result
+                run['script'][-1] = {'op': 'ret', 'e': {'c': {'d': [['error_type', {'s': 'ValueError'}],
+                                                                      ['error_repr', {'s': "ValueError('boom')"}]]}}}
         if case.get('cassette') == 'memory':
             case['default_lookup'] = True
         # the service's local time zone: the recording timestamp is UTC wherever it runs
